@@ -153,66 +153,94 @@ packet Detail {
 	string RuleName `" ++ [35268; 21017; 21517; 31216]%N ++ runes_of_ascii "`,
 	u16 Code `" ++ [21407; 22240; 20195; 30721]%N ++ runes_of_ascii "`,
 }")).
-Eval vm_compute in ("<<<M316>>>" ++ check (runes_of_ascii "// `tick` ""quote"" 'q'
-packet crc { @tag(0 ) //x
-chars , i8i8
-@lengthOf( packetx ), repeat
-f32a
-    {
-match packetx as a1{
-    ""x y""
-:
-//
-// `tick` ""quote"" 'q'
-Packet, } ,}
-, @leftPad(
-'\x00' )
-uint8 int ,
-match float as a1 {
-    // `tick` ""quote"" 'q'
-    [4294967296
-    ]
-:// " ++ [27880; 37322]%N ++ runes_of_ascii "
-Packet
-    , } //
-, repeat zchar[ 007 ] zchar`tab	here`
-    , repeat
-// " ++ [27880; 37322]%N ++ runes_of_ascii "
-// a // b
-x
-    , }	packet
-string_
-    // c
-    { char[
-0123456789] a1
-, @calculatedFrom( ""a\\"" ) @tag( 42)
-@leftPad
-('\x00' ) options1
-    @calculatedFrom( """ ++ [28040; 24687]%N ++ runes_of_ascii """
-)`it's`	, repeat
-rootA// packet A { u8 x, }
-{
-    //
-    match Logon as Packet { [10 ,	255 , 0,
-007 ,
-""CRC32""
-, ""abc"" ] : len , """ ++ [28040; 24687]%N ++ runes_of_ascii """:	a1	, } , match leftPad as Header { 007:  As
-, 255: repeatCount , /// triple
-"""" // packet A { u8 x, }
-: matchKey //
-, [ 255 ,
-    3,	""abc"" , """", ""\n"" , 1
-, """"// " ++ [27880; 37322]%N ++ runes_of_ascii "
-,
-42//x
-] : pack ,
+Eval vm_compute in ("<<<M1626>>>" ++ check (runes_of_ascii "  options {
 }
-, }
-// @lengthOf(
-// `tick` ""quote"" 'q'
-, int
-{int64 chars , }// @lengthOf(
-, } 	 ")).
+options
+
+    { uint8x=  
+  // @lengthOf(
+  // " ++ [27880; 37322]%N ++ runes_of_ascii "
+  	42	uint8x = /// triple
+      ""abc"" ;//x
+  _x
+=
+'0'
+}
+packet u8x { zchar[ 1 ] 
+As	`crlf
+line`
+
+,
+
+match
+metadata  as
+float {""packet"": //
+
+trueish ,	}	,repeat rootA
+,  repeat
+metadata
+
+    repeatCount	// trailing space 
+,
+	@rightPad
+( 	 // `tick` ""quote"" 'q'
+    '0'
+
+    ) i64 body
+`// not a comment`,@tag( 
+1	)
+	string	string_
+	`line1
+line2`
+, 
+uint8  u8x
+`" ++ [28040; 24687; 31867; 22411]%N ++ runes_of_ascii "`	,
+packetx
+u128
+,
+
+u tag	, 
+repeat Logon
+
+    zchar `` 
+, }  packet
+zchar {
+    }
+packet 
+MetaDataX{ @lengthOf(  Packet
+
+    )
+
+    repeatCount int
+`doc` , @tag(
+7
+
+    )packetx
+
+    @calculatedFrom(""a\""b""  // c
+    ) , match
+
+    msg_type
+
+    as
+
+x
+    { ""\n""
+	:calculatedFrom
+}
+    , //x
+		@leftPad (// packet A { u8 x, }
+  '\x00' )	@lengthOf( MetaDataX  // c
+
+  )
+// a // b
+
+char[007  ]a1  `tab	here`
+, As
+
+@calculatedFrom( ""`tick`""	)`// not a comment`, }
+
+")).
 Eval vm_compute in ("<<<M379>>>" ++ check (runes_of_ascii "root
     packet i64_ { trueish ,
 @calculatedFrom(""abc"") @tag( 7 )
@@ -498,36 +526,58 @@ char[]
 _x 	 //	t
       , }
 ")).
-Eval vm_compute in ("<<<M40>>>" ++ check (runes_of_ascii "packet stringy
-//	t
-//
-{ repeat T// trailing space 
-{ u64 lengthOf
-`tab	here`  ,
-repeat
-_x { match calculatedFrom as Header { [""" ++ [233]%N ++ runes_of_ascii "t" ++ [233]%N ++ runes_of_ascii """
-    ] : _x  ,// @lengthOf(
-[""packet"" ] :
-MetaDataX , 255 : u128,42 :
-A
-""// no comment"" : body
-    , }
-, repeat crc Foo, charz
+Eval vm_compute in ("<<<M1779>>>" ++ check (runes_of_ascii "options
+
+{
+	float = char[]} // packet A { u8 x, }
+
+root packet Logon
+	{ 
+@tag(
+1
+    )// a // b
+  @calculatedFrom(
+
+    ""packet""  
+      // a // b
+    // " ++ [128512]%N ++ runes_of_ascii " emoji
+    )
+zchar[3	] 
+// c
+  //x
+		Z9_
+
+,
+@lengthOf(charz )	@calculatedFrom(  ""1""
+    )
+match  roots
+    as 
+int{""a	b"" : MetaDataX,
+} 
+,
+    @calculatedFrom( ""a\""b""
+    ) match
+
+asx
+as lengthOf	{ """ ++ [128512]%N ++ runes_of_ascii """
+
+    : _x ,[
+
+255
+
+    ]	:
+
+BodyLength ,3:
+u8x,	0123456789
+    :
+
+T} 
+,  len	@lengthOf( leftPad 
+)
+	`u8 x,`
     ,
-}	,zchar[ 1
-    ]i8i8@calculatedFrom( ""x y"" ),  uint8x
-    // " ++ [27880; 37322]%N ++ runes_of_ascii "
-    Pad
-`line1
-line2` , } ,
-@lengthOf( u )
-char[ //x
-4294967296 ]crc, @tag(  007 //x
-)repeatCount ,
-repeat
-    //x
-    char[] Header, @rightPad ( )char[] string_ `a\` ,
-    }
+
+    }  // @lengthOf(
 ")).
 Eval vm_compute in ("<<<M264>>>" ++ check (runes_of_ascii "options  {
     float
@@ -624,23 +674,27 @@ root packet Ack {
     },
 }
 ")).
-Eval vm_compute in ("<<<M32>>>" ++ check (runes_of_ascii "packet int { T/// triple
-{ repeat _x ,	} ,
-    i64_ _x
-    `
-`, @calculatedFrom( ""x y"" )u32 A
-,  match a1 as
-    i8i8 { [ ""1""
-,
-4294967296
-]:
-    a1 ,"""":	a1
-    , 007: a1 , [ ""CRC32"" ] :Header} , int64 As, int8 a1 , //
-char[] float
-`tab	here`/// triple
-,
-repeat zchar[ 1	]u8x,
-} /// triple")).
+Eval vm_compute in ("<<<M232>>>" ++ check (runes_of_ascii "options {  A = i16
+;
+    }
+    /// triple
+    root
+packet
+    rootA{
+    @tag( 7)int16 pack,Logon @calculatedFrom( ""a\""b"" ) `{ , }`
+    , @rightPad ( '\x00' )
+//
+//
+char[
+7
+    // `tick` ""quote"" 'q'
+    ]options1
+`tab	here`,@calculatedFrom(
+""" ++ [233]%N ++ runes_of_ascii "t" ++ [233]%N ++ runes_of_ascii """ )int @lengthOf(
+Packet
+) `crlf
+line`, }
+")).
 Eval vm_compute in ("<<<M1320>>>" ++ check (runes_of_ascii "packet P1 {
     u8 a,
 }
